@@ -181,5 +181,5 @@ class SubDelete(Obligation):
 
 
 def obligations(ctx, cfg):
-    n = 2 if cfg['tier'] == 'quick' else 3
+    n = 2 if cfg['tier'] == 'quick' else 4
     return [TopicHandlers(ctx, n), SubDelete(ctx)]
